@@ -71,7 +71,7 @@ def gen_template(rnd, ti):
 
 def near_copy(rnd, tpl):
     m = copy.deepcopy(tpl)
-    kind = rnd.choice(['exact', 'exact', 'position-only', 'charge', 'mass', 'param', 'meta', 'node-order', 'atomid', 'define', 'nrexcl'])
+    kind = rnd.choice(['exact', 'exact', 'position-only', 'charge', 'mass', 'param', 'meta', 'node-order', 'key-swap', 'key-swap', 'atomid', 'define', 'nrexcl'])
     if kind == 'charge':
         a = rnd.choice(m['atoms'])[1]
         a['charge'] = a['charge'] + 0.5
@@ -85,6 +85,13 @@ def near_copy(rnd, tpl):
     elif kind == 'node-order' and len(m['atoms']) > 1:
         i, j = rnd.sample(range(len(m['atoms'])), 2)
         m['atoms'][i], m['atoms'][j] = m['atoms'][j], m['atoms'][i]
+    elif kind == 'key-swap' and len(m['atoms']) > 1:
+        # same key set, same attributes position by position, same interaction tuples - but two atoms carry each other's key, so
+        # the tuples connect other atoms; prefer atoms that take part in interactions
+        used = [i for i, (k, a) in enumerate(m['atoms']) if any(k in it[1] for it in m['inter'])]
+        pool = used if len(used) >= 2 and rnd.random() < 0.8 else range(len(m['atoms']))
+        i, j = rnd.sample(list(pool), 2)
+        m['atoms'][i][0], m['atoms'][j][0] = m['atoms'][j][0], m['atoms'][i][0]
     elif kind == 'atomid' and len(m['atoms']) > 1:
         perm = list(range(1, len(m['atoms']) + 1))
         rnd.shuffle(perm)
@@ -279,7 +286,12 @@ def make_oligomer(src, out, copies, rnd, perturb):
         f.write('\n'.join(lines) + '\n')
 
 
+_P1 = 'integration_tests/tier-0/mini-protein1_betasheet/aa.pdb'
+_P2 = 'integration_tests/tier-0/mini-protein2_helix/aa.pdb'
 CLI_SCENARIOS = [
+    # two copies of a two-chain molecule whose chain identifiers sort differently (A+B, D+C): the final atom sorting is by chain
+    {'name': 'merged-pairs-chain-order-AB-DC', 'chains': [[_P1, 'A'], [_P2, 'B'], [_P1, 'D'], [_P2, 'C']],
+     'flags': ['-merge', 'A,B', '-merge', 'D,C', '-ff', 'martini3001']},
     {'name': 'homodimer-elastic-perturbed', 'src': 'integration_tests/tier-0/mini-protein1_betasheet/aa.pdb', 'copies': 2, 'perturb': 1.0,
      'flags': ['-elastic', '-ff', 'martini22']},
     {'name': 'homotrimer-elastic-identical', 'src': 'integration_tests/tier-0/mini-protein2_helix/aa.pdb', 'copies': 3, 'perturb': 0.0,
@@ -296,16 +308,37 @@ CLI_SCENARIOS = [
      'flags': ['-p', 'backbone', '-ff', 'martini3001']},
     {'name': 'homodimer-elastic-chain-unit', 'src': 'integration_tests/tier-0/mini-protein1_betasheet/aa.pdb', 'copies': 2, 'perturb': 0.5,
      'flags': ['-elastic', '-eunit', 'chain', '-ff', 'elnedyn22']},
+    {'name': 'merged-pairs-chain-order-BA-CD-elastic', 'chains': [[_P2, 'B'], [_P1, 'A'], [_P2, 'C'], [_P1, 'D']],
+     'flags': ['-merge', 'A,B', '-merge', 'C,D', '-ff', 'martini22', '-elastic', '-resid', 'input']},
     {'name': 'heterodimer-elastic', 'src': 'integration_tests/tier-0/mini-protein1_betasheet/aa.pdb', 'copies': 1, 'perturb': 0.0,
      'second': 'integration_tests/tier-0/mini-protein2_helix/aa.pdb', 'flags': ['-elastic', '-ff', 'martini3001']},
 ]
+
+
+def make_multichain(specs, out, work):
+    """specs: [(source file, chain letter)] in file order; each chain is the first chain of its source, shifted along x."""
+    lines = []
+    tmp = os.path.join(work, 'one.pdb')
+    for i, (src, chain) in enumerate(specs):
+        make_oligomer(util.test_data_path(src), tmp, 1, None, 0.0)
+        with open(tmp) as f:
+            for l in f.read().split('\n'):
+                if l.startswith('ATOM'):
+                    lines.append(l[:21] + chain + l[22:30] + '%8.3f' % (float(l[30:38]) + 50.0 * i) + l[38:])
+                elif l.startswith('TER'):
+                    lines.append(l)
+    with open(out, 'w') as f:
+        f.write('\n'.join(lines) + '\nEND\n')
 
 
 def check_cli(sc, b):
     work = tempfile.mkdtemp(prefix='c03cli-')
     try:
         inp = os.path.join(work, 'in.pdb')
-        make_oligomer(util.test_data_path(sc['src']), inp, sc['copies'], sc, sc['perturb'])
+        if sc.get('chains'):
+            make_multichain(sc['chains'], inp, work)
+        else:
+            make_oligomer(util.test_data_path(sc['src']), inp, sc['copies'], sc, sc['perturb'])
         if sc.get('second'):
             with open(inp) as f:
                 first = f.read().replace('END\n', '')
@@ -364,7 +397,7 @@ def check_cli(sc, b):
 def cases(tier, seed):
     nb, per = (24, 25) if tier == 'quick' else (120, 220)
     out = [{'kind': 'library', 'seed': seed, 'batch': b, 'n': per} for b in range(nb)]
-    scen = CLI_SCENARIOS if tier == 'thorough' else CLI_SCENARIOS[:7]
+    scen = CLI_SCENARIOS if tier == 'thorough' else CLI_SCENARIOS[:8]
     out += [{'kind': 'cli', 'scenario': i} for i in range(len(scen))]
     return out
 
